@@ -510,6 +510,57 @@ pub fn exec_op(st: &mut Store, dir: &str, t: &[&str]) -> (String, bool) {
                     }
                 }
             }
+            "RR" => {
+                // concurrent readers against a thread that keeps draining the evictable part of
+                // the cache (the worker is idle, nothing is written): every read must return
+                // what a read returned just before
+                let n = pu(t[1]);
+                match catch_unwind(AssertUnwindSafe(|| {
+                    st.rl.drain_cache_evictable();
+                    let base: Vec<String> = st.rl.read(0, u64::MAX).map(|r| item_str(r)).collect();
+                    let rl = &st.rl;
+                    let stopf = std::sync::atomic::AtomicBool::new(false);
+                    let bad: Mutex<Option<String>> = Mutex::new(None);
+                    let rounds = std::sync::atomic::AtomicU64::new(0);
+                    std::thread::scope(|sc| {
+                        for k in 0..3 {
+                            let (base, stopf, bad, rounds) = (&base, &stopf, &bad, &rounds);
+                            std::thread::Builder::new()
+                                .name(format!("reader{}", k))
+                                .spawn_scoped(sc, move || {
+                                    while !stopf.load(std::sync::atomic::Ordering::SeqCst) {
+                                        let r: Vec<String> = rl.read(0, u64::MAX).map(|r| item_str(r)).collect();
+                                        rounds.fetch_add(1, std::sync::atomic::Ordering::SeqCst);
+                                        if &r != base {
+                                            *bad.lock().unwrap() = Some(r.join(" "));
+                                            break;
+                                        }
+                                    }
+                                })
+                                .unwrap();
+                        }
+                        let mut i = 0;
+                        // at least n drains, and until every reader has had a few turns
+                        while i < n || (rounds.load(std::sync::atomic::Ordering::SeqCst) < 30 && i < 200 * n) {
+                            rl.drain_cache_evictable();
+                            i += 1;
+                            if bad.lock().unwrap().is_some() {
+                                break;
+                            }
+                        }
+                        stopf.store(true, std::sync::atomic::Ordering::SeqCst);
+                    });
+                    let b = bad.lock().unwrap().clone();
+                    (base.join(" "), b)
+                })) {
+                    Ok((_, None)) => "stress ok".to_string(),
+                    Ok((base, Some(b))) => format!("stress diff before=[{}] during=[{}]", base, b),
+                    Err(_) => {
+                        stop = true;
+                        "panic".to_string()
+                    }
+                }
+            }
             "H" => {
                 let v = st.rl.verif_cache_resident();
                 format!("resident {}", v.iter().map(|(id, n)| format!("{}:{}:{}", id.0, id.1, n)).collect::<Vec<_>>().join(","))
